@@ -9,6 +9,7 @@
    7. the monitor accepts every model trace *)
 From Coq Require Import Lia ZifyBool.
 From BT Require Import Base.ListX AdvData.AdvDataModel AdvData.AdvDataSpec.
+Set Implicit Arguments.
 
 (* ------------------------------------------------------------------ 1. stores *)
 Lemma upd_app_at (pre : list N) y r x : upd (pre ++ y :: r) (length pre) x = pre ++ x :: r.
@@ -139,7 +140,7 @@ Proof.
     + split; [apply Nat.le_0_l | apply skip_none].
     + set (m := Nat.min ((k - 2) / 2) (length us)).
       assert (Hm : length (enc16 (firstn m us)) = 2 * m) by (rewrite enc16_length, firstn_length; lia).
-      pose proof (Nat.mul_div_le (k - 2) 2).
+      pose proof (Nat.mul_div_le (k - 2) 2 ltac:(lia)).
       apply put_one.
       * simpl raw_enc. rewrite Hm. reflexivity.
       * simpl ad_size. rewrite Hm. lia.
@@ -172,4 +173,81 @@ Proof.
       { pose proof (Nat.div_add (k - 16) 1 16 ltac:(lia)) as D.
         replace (k - 16 + 1 * 16) with k in D by lia. lia. }
       rewrite Hd. cbn [length]. rewrite <- Nat.succ_min_distr. cbn [firstn concat].
- rewrite !app_assoc. Show. 
+      rewrite !app_assoc.
+      replace (k - 16 * S (Nat.min ((k - 16) / 16) (length t))) with (k - 16 - 16 * Nat.min ((k - 16) / 16) (length t)) by lia.
+      reflexivity.
+    + assert (k < 16) by lia.
+      specialize (IH pre k). cbv zeta in IH. rewrite IH.
+      rewrite Nat.div_small by lia. simpl. reflexivity.
+Qed.
+
+Lemma sat_uuid128 us : Forall (fun u => length u = 16) us -> sat (w_uuid128 us) (g_uuid128 us).
+Proof.
+  intros W pre k. unfold w_uuid128, g_uuid128. destruct us as [|u us'].
+  - rewrite Bool.orb_true_r. split; [apply Nat.le_0_l | apply skip_none].
+  - rewrite room. set (us := u :: us') in *.
+    change (length us =? 0) with false. rewrite Bool.orb_false_r.
+    change (2 + 16) with 18.
+    destruct (k <? 18) eqn:E.
+    + split; [apply Nat.le_0_l | apply skip_none].
+    + set (m := Nat.min ((k - 2) / 16) (length us)).
+      assert (Hm : length (concat (firstn m us)) = 16 * m).
+      { rewrite concat16_length by (apply Forall_firstn; exact W). rewrite firstn_length. lia. }
+      pose proof (Nat.mul_div_le (k - 2) 16 ltac:(lia)).
+      unfold size, raw; simpl list_sum; simpl flat_map. rewrite app_nil_r, Nat.add_0_r, Hm.
+      split; [lia|].
+      unfold seq. rewrite put_fresh by (simpl; lia).
+      set (hd := [byte (1 + 16 * m); if m =? length us then ad_complete_128 else ad_incomplete_128]).
+      change (length hd) with 2.
+      pose proof (each128_spec W (pre ++ hd) (k - 2)) as H2. cbv zeta in H2. fold m in H2.
+      rewrite H2. unfold hd.
+      replace (1 + 16 * m) with (S (16 * m)) by lia.
+      replace (k - 2 - 16 * m) with (k - S (S (16 * m))) by lia.
+      rewrite <- !app_assoc. reflexivity.
+Qed.
+
+Lemma sat_range r : sat (w_range r) (g_range r).
+Proof.
+  intros pre k. unfold w_range, g_range. destruct r as [[mn mx]|].
+  - rewrite room. destruct (6 <=? k) eqn:E.
+    + apply put_one; [reflexivity | simpl; lia].
+    + split; [apply Nat.le_0_l | apply skip_none].
+  - split; [apply Nat.le_0_l | apply skip_none].
+Qed.
+
+Lemma sat_tail : sat w_tail g_tail.
+Proof.
+  intros pre k. unfold w_tail, g_tail. rewrite room. destruct (2 <=? k) eqn:E.
+  - split; [change (2 <= k); lia|]. rewrite put_fresh by (simpl; lia). reflexivity.
+  - split; [apply Nat.le_0_l | apply skip_none].
+Qed.
+
+Lemma sat_flags0 k :
+  size (g_flags k) <= k /\
+  w_flags (repeat fill k) 0 = Some (raw (g_flags k) ++ repeat fill (k - size (g_flags k)), length (raw (g_flags k))).
+Proof.
+  unfold w_flags, g_flags. rewrite repeat_length. destruct (3 <=? k) eqn:E.
+  - split; [change (3 <= k); lia|]. exact (@put_fresh [] k [2%N; ad_flags; 6%N] ltac:(simpl; lia)).
+  - split; [apply Nat.le_0_l|]. simpl. now rewrite Nat.sub_0_r.
+Qed.
+
+(* ------------------------------------------------------------------ 3. the whole generator, any buffer size *)
+Lemma writers_sat c : wf_cfg c -> sat (w_rest c) (g_rest c).
+Proof.
+  intros W. unfold w_rest, g_rest.
+  apply sat_seq; [apply sat_appearance|].
+  apply sat_seq; [apply sat_name|].
+  apply sat_seq; [apply sat_uuid16|].
+  apply sat_seq; [apply sat_uuid128; exact W|].
+  apply sat_seq; [apply sat_range | apply sat_tail].
+Qed.
+
+Theorem adv_auto_spec c b : wf_cfg c ->
+  size (spec_ads c b) <= b /\
+  adv_auto c b = Some (raw (spec_ads c b) ++ repeat fill (b - size (spec_ads c b)), size (spec_ads c b)).
+Proof.
+  intros W. unfold adv_auto, spec_ads, then_, seq, fresh.
+  destruct (sat_flags0 b) as [L0 E0]. rewrite E0.
+  destruct (writers_sat W (raw (g_flags b)) (b - size (g_flags b))) as [L1 E1]. rewrite E1.
+  rewrite size_app, raw_app. split; [lia|].
+ Show. 
